@@ -197,3 +197,23 @@ pub fn exec_present(input: &Value) -> Value {
     }
     json!({"presentation": {"o": "ok"}, "builds": outs})
 }
+
+/// Turns a present case into a session now and then: the redactions spread over three builds on the same Holder, an
+/// earlier key_binding call with other parameters. The expectations of the case describe the final state, which is what
+/// the last build is judged against; earlier builds are judged by model agreement, framing and the key-binding oracle.
+pub fn decorate_session(r: &mut crate::rng::Rng, case: &mut Value) {
+    let redact: Vec<Value> = case["redact"].as_array().cloned().unwrap_or_default();
+    if case["redact_after"].is_null() && !redact.is_empty() && r.chance(1, 5) {
+        let cut1 = r.below(redact.len());
+        let cut2 = cut1 + r.below(redact.len() - cut1 + 1);
+        case["redact"] = json!(redact[..cut1].to_vec());
+        case["redact_after"] = json!([redact[cut1..cut2].to_vec(), redact[cut2..].to_vec()]);
+        case["builds"] = json!(3);
+        if case["tag"].is_null() {
+            case["tag"] = json!("staged_redaction");
+        }
+    }
+    if case["kb"].is_object() && case["kb_first"].is_null() && r.chance(1, 8) {
+        case["kb_first"] = json!({"aud": *r.pick(&["https://typo.example", "x", ""]), "alg": *r.pick(&["RS256", "RS384", "PS256", "PS512"])});
+    }
+}
